@@ -1,7 +1,7 @@
 """C13 — stats account for every message (engine E2)."""
 import e2
 
-TIE = ["Nsq.Tie.Chan"]
+TIE = ["Nsq.Tie.Chan", "Nsq.Tie.ChanFunc"]
 PROPS = ["Nsq.Props.C13"]
 
 
